@@ -37,7 +37,7 @@ class CC14Spec(object):
     has_poll = False
     # input classes: (name, kind, controller number range | None for non-CC)
     classes = [('CC.0-31', 'cc', (0, 31)), ('CC.32-63', 'cc', (32, 63)), ('CC.64-127', 'cc', (64, 127)),
-               ('NonCC', 'noncc', None), ('reset', 'reset', None)]
+               ('NonCC', 'noncc', None), ('System', 'noncc', 'system'), ('reset', 'reset', None)]
     contributing = [(0, 63)]
 
     def init(self, timeout=None):
@@ -67,7 +67,7 @@ def pn_msg(ch, msb, lsb, value, registered, is14, dtype):
 PN_CLASSES = [('CC.98', 'cc', (98, 98)), ('CC.99', 'cc', (99, 99)), ('CC.100', 'cc', (100, 100)), ('CC.101', 'cc', (101, 101)),
               ('CC.38', 'cc', (38, 38)), ('CC.6', 'cc', (6, 6)), ('CC.96', 'cc', (96, 96)), ('CC.97', 'cc', (97, 97)),
               ('CC.0-5', 'cc', (0, 5)), ('CC.7-37', 'cc', (7, 37)), ('CC.39-95', 'cc', (39, 95)), ('CC.102-127', 'cc', (102, 127)),
-              ('NonCC', 'noncc', None), ('reset', 'reset', None)]
+              ('NonCC', 'noncc', None), ('System', 'noncc', 'system'), ('reset', 'reset', None)]
 
 
 class PNSpec(object):
